@@ -7,7 +7,7 @@
 #undef protected
 #undef private
 #include <photon/thread/thread11.h>
-#include "mv_photon.h"
+#include "mv_prog.h"
 #include <atomic>
 #include <vector>
 #include <string>
@@ -18,7 +18,7 @@ using namespace photon;
 static const uint64_t TMO = 40;
 struct PT {                 // one photon thread of the program
     std::string ops; int vcpu, idx;
-    thread* th = nullptr; std::string result;
+    thread* th = nullptr; std::string result; bool finished = false;
 };
 struct State {
     mutex* m = nullptr; recursive_mutex* rm = nullptr; bool recursive = false;
@@ -56,12 +56,13 @@ static void run_pt(int k) {
         char op = ops[i];
         if (op == 'i') {            // interrupt thread <digit> with EINTR
             int tgt = ops[++i] - '0';
-            if (G->pts[tgt].th) { G->interrupts_sent[tgt]++; thread_interrupt(G->pts[tgt].th, EINTR); }
+            if (tgt < (int)G->pts.size() && G->pts[tgt].th && !G->pts[tgt].finished) { G->interrupts_sent[tgt]++; thread_interrupt(G->pts[tgt].th, EINTR); }
             p.result += "i";
             continue;
         }
         if (op == 'y') { thread_yield(); continue; }
         if (op == 'p') { int n = pmc_choose(3, PMC_PROG, 0, "pad yields"); for (int k = 0; k < n; k++) thread_yield(); continue; }   // every arrival order on one vCPU
+        if (op == 'q') { if (pmc_choose(2, PMC_PROG, 0, "pad yield")) thread_yield(); continue; }
         bool nested = (op == 'N');          // recursive: lock twice
         uint64_t t_start = mv_now();
         errno = 0;
@@ -89,6 +90,7 @@ static void run_pt(int k) {
             p.result += (e == ETIMEDOUT ? "t" : e == EINTR ? "e" : e == EBUSY ? "b" : "0");
         }
     }
+    p.finished = true;      // (a finished thread may be joined and disposed at any time: nobody interrupts it any more)
 }
 
 // config: "<kind><retries><c|n>:<threads of vcpu0>|<threads of vcpu1>[:tdev]"  kind m=mutex R=recursive; threads comma separated op strings
@@ -97,6 +99,13 @@ void pmc_run(const char* config) {
     char kind; int retries; char cont; char prog[128]; char extra[16] = "";
     if (sscanf(config, "%c%d%c:%127[^:]:%15s", &kind, &retries, &cont, prog, extra) < 4) pmc_broken("bad config %s", config);
     st.recursive = (kind == 'R');
+    std::string genlog;
+    if (!strncmp(prog, "gen", 3)) {        // generated program: every combination of ops, every arrival order (one vCPU)
+        pmc_window(1);
+        std::string g = st.recursive ? mvprog::generate(prog, {"L", "T", "Y", "N", "i0", "i1"}) : mvprog::generate(prog, {"L", "T", "Z", "Y", "i0", "i1", "i2"});
+        pmc_window(0);
+        snprintf(prog, sizeof prog, "%s", g.c_str()); genlog = g + " ";
+    }
     if (st.recursive) st.rm = new recursive_mutex(retries, cont == 'c'); else st.m = new mutex(retries, cont == 'c');
     int v = 0; std::string cur;
     for (char* c = prog;; c++) {
@@ -135,7 +144,7 @@ void pmc_run(const char* config) {
     if (locked) pmc_violation("left-locked", "mutex still locked after every thread finished");
     if (st.acquires != st.releases) pmc_violation("acquire-release-mismatch", "%d acquires, %d releases", st.acquires, st.releases);
     std::string obs; for (auto& p : st.pts) { obs += p.result; obs += "/"; }
-    pmc_obs("%s order=%s", obs.c_str(), st.order.c_str());
+    pmc_obs("%s%s order=%s", genlog.c_str(), obs.c_str(), st.order.c_str());
     delete st.m; delete st.rm;
     mv_fini();
     G = nullptr;
@@ -161,6 +170,13 @@ static const PmcConfig CFG[] = {
     {"m0n:Z|L",                  3, {1,2}, {0,0}, {0,0}, {0,0}, "zero timeout"},
     {"R0n:N|L",                  3, {1,2}, {0,0}, {0,0}, {0,0}, "recursive mutex, nested lock"},
     {"m0n:L|L|L",                2, {1,2}, {0,0}, {0,0}, {0,0}, "three vCPUs"},
+    {"m0n:gen3x1:tdev",          3, {0,0}, {0,1}, {0,0}, {0,0}, "generated: every 3-thread program, one op each from {L,T,Z,Y,i0,i1,i2}, every arrival order"},
+    {"m0n:gen2x2",               3, {0,0}, {0,0}, {0,0}, {0,0}, "generated: 2 threads x up to 2 ops"},
+    {"m0n:gen3x2",               2, {0,0}, {0,0}, {0,0}, {0,0}, "generated: 3 threads x up to 2 ops"},
+    {"m1c:gen3x2",               2, {0,0}, {0,0}, {0,0}, {0,0}, "... contending mode, one retry"},
+    {"R0n:gen2x2",               3, {0,0}, {0,0}, {0,0}, {0,0}, "recursive mutex"},
+    {"R0n:gen3x2",               2, {0,0}, {0,0}, {0,0}, {0,0}, "recursive mutex"},
+    {"m0n:gen2x3+:tdev",         2, {0,0}, {1,1}, {0,0}, {0,0}, ""},
     {"m0n:L|L:tso",              3, {1,2}, {0,0}, {1,1}, {2,3}, "x86-TSO: one store per thread may linger in the store buffer"},
     {"m0c:L|L:tso",              3, {1,2}, {0,0}, {1,1}, {2,3}, ""},
     {"m0n:L|L,i0:tso",           2, {1,1}, {0,0}, {1,1}, {2,2}, ""}, 
